@@ -26,6 +26,18 @@ Theorem C19_history_preserves_global_scope_and_builtins :
 Proof. exact history_preserves_world. Qed.
 Print Assumptions C19_history_preserves_global_scope_and_builtins.
 
+(* What the next program sees when it starts: it runs in a fresh, empty scope enclosed in the global
+   one, and every name resolves there exactly as in the global scope of the interpreter BEFORE the
+   history ran — for every history (failing programs included) and every name. *)
+Theorem C19_next_program_sees_the_original_globals :
+  forall W fuel hs st x fr,
+    nth_error (frames st) 0 = Some fr -> fouter fr = None -> ~ clof st 0 ->
+    let st' := run_history W fuel hs st in
+    let '(r, st1) := alloc_frame [] (Some 0) st' in
+    match r with Ok e => env_get st1 e x = assoc x (fstore fr) | _ => False end.
+Proof. exact next_program_sees_the_original_globals. Qed.
+Print Assumptions C19_next_program_sees_the_original_globals.
+
 Theorem C19_one_program_changes_no_existing_scope :
   forall W fuel prog outer st r st',
     run_program W fuel prog outer st = (r, st') ->
